@@ -38,10 +38,25 @@ pub fn server_config(name: &str) -> Arc<ServerConfig> {
     if let Some(cfg) = c.get(name) {
         return cfg.clone();
     }
-    let cfg = ServerConfig::builder()
-        .with_no_client_auth()
-        .with_single_cert(load_certs(name), load_key(name))
-        .expect("server config");
+    let cfg = if name == "impostor" {
+        // the `good` certificate chain served by a peer that holds a different private key: the handshake signature cannot verify
+        #[derive(Debug)]
+        struct Fixed(Arc<rustls::sign::CertifiedKey>);
+        impl rustls::server::ResolvesServerCert for Fixed {
+            fn resolve(&self, _hello: rustls::server::ClientHello<'_>) -> Option<Arc<rustls::sign::CertifiedKey>> {
+                Some(self.0.clone())
+            }
+        }
+        let builder = ServerConfig::builder();
+        let key = builder.crypto_provider().key_provider.load_private_key(load_key("impostor")).expect("impostor key");
+        let ck = rustls::sign::CertifiedKey::new(load_certs("impostor"), key);
+        builder.with_no_client_auth().with_cert_resolver(Arc::new(Fixed(Arc::new(ck))))
+    } else {
+        ServerConfig::builder()
+            .with_no_client_auth()
+            .with_single_cert(load_certs(name), load_key(name))
+            .expect("server config")
+    };
     let cfg = Arc::new(cfg);
     c.insert(name.to_string(), cfg.clone());
     cfg
